@@ -69,6 +69,47 @@ def step (s : Task) : Act → Task
 
 def run (s : Task) (acts : List Act) : Task := acts.foldl step s
 
+/-! #### Trace acceptance: events logged by the real `TaskState` (cfg(glaredb_verif) hook) -/
+
+inductive Ev where
+  | schedule (errorSet : Bool)      -- one call of `schedule()`; whether it wrote the error sink
+  | cancelSet                       -- `handle.cancel` set `canceled` for this task
+  | begin                           -- `execute()` entered
+  | poll (r : PollResult)           -- the pipeline's poll returned
+  | end_                            -- the locked epilogue of the worker loop ran
+  deriving Repr, DecidableEq, Inhabited
+
+/-- `[running, pending, completed, canceled]` as logged after the event's critical section. -/
+abbrev Flags := Bool × Bool × Bool × Bool
+
+def Task.flags (s : Task) : Flags := (s.running, s.pending, s.completed, s.canceled)
+
+/-- Replay logged events on the model; `none` = every event is what the model does, `some i` = the
+`i`-th event is not (different flags, or an error written / not written differently). -/
+def acceptFrom (s : Task) (last : Option PollResult) (i : Nat) : List (Ev × Flags) → Option Nat
+  | [] => none
+  | (ev, fl) :: rest =>
+    match ev with
+    | .schedule err =>
+      let s' := schedule s
+      let modelErr := !s.completed && s.canceled
+      if s'.flags == fl && modelErr == err then acceptFrom s' last (i + 1) rest else some i
+    | .cancelSet =>
+      let s' := { s with canceled := true }
+      if s'.flags == fl then acceptFrom s' last (i + 1) rest else some i
+    | .begin =>
+      if s.phase == .spawned then acceptFrom (step s .workerBegin) none (i + 1) rest else some i
+    | .poll r =>
+      if s.phase == .executing && s.flags == fl then acceptFrom s (some r) (i + 1) rest else some i
+    | .end_ =>
+      match last with
+      | none => some i
+      | some r =>
+        let s' := step s (.workerEnd r)
+        if s.phase == .executing && s'.flags == fl then acceptFrom s' none (i + 1) rest else some i
+
+def accept (evs : List (Ev × Flags)) : Option Nat := acceptFrom {} none 0 evs
+
 /-! ### The phase barrier -/
 
 structure Barrier where
